@@ -91,6 +91,8 @@ class Recorder:
         self.base = set(plan.get("base", ()))
         self.rehome = {(k, l) for k, l in plan.get("rehome", ())}
         self.false_at = set(plan.get("false", ()))
+        self.editlist = set(plan.get("editlist", ()))
+        self.current_list = None
         self.veto_class = VETO_KINDS[plan.get("exc")]
 
     def hook(self, kind, node, arg):
@@ -105,6 +107,21 @@ class Recorder:
         self.log.append([kind, label, arg_l])
         if self.take_snapshots:
             self.snaps.append(snap)
+        if self.count in self.editlist and isinstance(self.current_list, list):
+            # the caller's own list (a work list that hooks tick off) changes while the assignment is running: the
+            # assignment is about the children the list held when it was made
+            lst = self.current_list
+            action = self.count % 4
+            if action == 0 and lst:
+                lst.pop()
+            elif action == 1:
+                lst.reverse()
+            elif action == 2 and lst:
+                lst.append(lst[0])
+            elif any(x is node for x in lst):
+                lst[:] = [x for x in lst if x is not node]
+            else:
+                del lst[:1]
         if self.count in self.false_at:
             return False  # hooks are notifications: what they return means nothing
         if self.count in self.base:
@@ -547,6 +564,8 @@ def _execute(universe, op):
                     value = (x for x in seq)
                 else:
                     value = seq
+                    if _rec() is not None:
+                        _rec().current_list = value
             node.children = value
         elif kind == "del":
             del node.children
@@ -932,6 +951,7 @@ def history_strategy(max_nodes=7, max_steps=30, faults="none", invalid=False, cl
             if faults == "all+evict":
                 plans.append(st.integers(1, 14).map(lambda k: {"base": [k]}))
                 plans.append(st.lists(st.integers(1, 14), min_size=1, max_size=3, unique=True).map(lambda ks: {"false": sorted(ks)}))
+                plans.append(st.lists(st.integers(1, 14), min_size=1, max_size=4, unique=True).map(lambda ks: {"editlist": sorted(ks)}))
                 plans.append(st.lists(st.tuples(st.sampled_from(["pre_detach", "post_detach", "pre_attach", "post_attach", "pre_detach_children", "post_detach_children", "pre_attach_children", "post_attach_children"]), idx).map(list), min_size=1, max_size=2).map(lambda ps: {"evict": ps}))
             plan = st.one_of(*plans)
         steps = draw(st.lists(st.tuples(op, plan).map(lambda t: {"op": t[0], "plan": t[1]}), min_size=1, max_size=max_steps))
@@ -1053,6 +1073,10 @@ def enum_fault_cases(cls, n, index, count, fault_hooks=(), pairs=False, persist=
                 # a hook that RETURNS False at every position (return values of notification hooks mean nothing)
                 for k in range(1, len(log0) + 1):
                     yield dict(base, steps=[{"op": op, "plan": {"false": [k]}}])
+                # a hook that edits the very list the caller assigned, at every hook position
+                if op[0] == "children" and not isinstance(op[2], dict) and (len(op) < 4 or op[3] == "list"):
+                    for k in range(1, len(log0) + 1):
+                        yield dict(base, steps=[{"op": op, "plan": {"editlist": [k]}}])
                 # an interrupt-like BaseException from every hook position
                 for k in range(1, len(log0) + 1):
                     yield dict(base, steps=[{"op": op, "plan": {"base": [k]}}])
